@@ -145,3 +145,56 @@ if __name__ == "__main__":
     for name, text in operations(int(sys.argv[1]) if len(sys.argv) > 1 else 10, int(sys.argv[2]) if len(sys.argv) > 2 else 7):
         r = R.check_operation(name, text)
         print(name, r["failed"], "" if not r["failed"] else text, "" if not r["failed"] else str(r["outcome"])[:400])
+
+
+def documents(n_docs, seed, per_doc=4):
+    """operation files: several generated operations (and all their fragments) in one document, definitions shuffled"""
+    ops = operations(n_docs * per_doc, seed)
+    out = []
+    for i in range(n_docs):
+        defs = []
+        for j, (_, text) in enumerate(ops[i * per_doc:(i + 1) * per_doc]):
+            doc = G.parse(text)
+            ren = {d.name.value: f"D{i}O{j}{d.name.value}" for d in doc.definitions if isinstance(d, G.FragmentDefinitionNode)}
+
+            class Ren(G.Visitor):
+                def enter_fragment_definition(self, node, *_):
+                    node.name = G.NameNode(value=ren[node.name.value])
+                    return node
+
+                def enter_fragment_spread(self, node, *_):
+                    node.name = G.NameNode(value=ren[node.name.value])
+                    return node
+
+                def enter_operation_definition(self, node, *_):
+                    node.name = G.NameNode(value=["getAlpha", "Beta", "list_gamma", "DeltaOp"][j % 4] + str(i))
+                    return node
+            doc = G.visit(doc, Ren())
+            defs += [G.print_ast(d) for d in doc.definitions]
+        random.Random(seed + i).shuffle(defs)
+        out.append((f"generated-document-{seed}-{i}", "\n".join(defs)))
+    return out
+
+
+def bounded_generated_documents(tier, seed):
+    """C02 on generated operation files: every operation is sent with its own name, its text and exactly the fragments it reaches"""
+    from . import e2e_documents as D
+    n = 5 if tier == "quick" else 30
+    fails = []
+    saved_schema = D.SCHEMA
+    D.SCHEMA = R.SCHEMA
+    try:
+        for name, text in documents(n, 11):
+            D.SCENARIOS[name] = text
+            try:
+                r = D.check_scenario(name)
+            finally:
+                D.SCENARIOS.pop(name, None)
+            if r["failed"]:
+                r["inputs"]["document"] = text
+                fails.append(r)
+    finally:
+        D.SCHEMA = saved_schema
+    return dict(function="ariadne_codegen.client_generators.result_types:ResultTypesGenerator.get_operation_as_str", name="bounded.generated-documents",
+                kind="bounded stand-in (seeded operation grammar, end to end)", domain=f"{n} generated operation files of 4 operations each (fixed seed)",
+                cases=n * 4, failed=len(fails), failures=fails)
